@@ -272,6 +272,7 @@ func (e *Engine) index() {
 	}
 	// functions in package-level tables are address-taken inside init
 	e.tc.freezeAny()
+	e.installJSONHook()
 	e.computeRecursion()
 	e.computeMods()
 	e.buildTables()
@@ -725,6 +726,9 @@ func (t *table) lookup(x *Exec, key Term) (has Term, val Term) {
 	val = x.zero(t.valSort, nil)
 	for i := len(t.keys) - 1; i >= 0; i-- {
 		eq := Eq(key, t.keys[i])
+		if key.Sort == SStr {
+			eq = x.eng.strEq(key, t.keys[i])
+		}
 		has = Ite(eq, TTrue, has)
 		val = Ite(eq, t.vals[i], val)
 	}
@@ -924,4 +928,52 @@ func (e *Engine) selfRecursive(f *ssa.Function) bool {
 		}
 	}
 	return false
+}
+
+// installJSONHook: the JSON assumption - when encoding/json fills an
+// *Expression target without error it has called UnmarshalJSON on it, whose
+// postcondition (the spec predicate DShape, if the contracts define it) holds of
+// the new value.  Inside UnmarshalJSON itself this is the induction hypothesis.
+func (e *Engine) installJSONHook() {
+	e.jsonShapeHook = func(x *Exec, v Term, g Term, i *ssa.Call) {
+		if v.Sort.Kind == KRecord && v.Sort.Name != "Expression" {
+			// fields of static type interface{} receive only the kinds encoding/json produces
+			for k, f := range v.Sort.Fields {
+				if f.Sort.Kind != KAny {
+					continue
+				}
+				fv := FieldSel(v, k)
+				var alts []Term
+				alts = append(alts, Eq(fv, Term{"ANil", f.Sort}))
+				for _, c := range e.tc.anyCtors {
+					if c.Payload == nil {
+						continue
+					}
+					switch c.Key {
+					case "bool", "float64", "string", "[]interface{}", "[]any":
+						alts = append(alts, mk(SBool, "(_ is "+c.Name+")", fv))
+					}
+				}
+				alts = append(alts, mk(SBool, "(_ is AOther)", fv)) // map[string]interface{}
+				x.assume(g, Or(alts...))
+				x.usedAssumptions["JSON: interface{}-typed struct fields are filled with nil, bool, float64, string, []interface{} or map[string]interface{} only"] = true
+			}
+			return
+		}
+		if v.Sort.Name != "Expression" {
+			return
+		}
+		p := e.spkgs[modPath+"/pkg/lucene/expr"]
+		if p == nil {
+			return
+		}
+		ds := p.Func("DShape")
+		if ds == nil {
+			return
+		}
+		ptr := PMk(PtrSort(v.Sort), v)
+		anyT := e.tc.makeAny(types.NewPointer(ds.Pkg.Pkg.Scope().Lookup("Expression").Type()), ptr, func() Term { return IntLit(0) })
+		x.assume(g, x.pureApp(ds, 0, []Term{anyT}))
+		x.usedAssumptions["JSON: a value encoding/json decoded into an *Expression without error satisfies UnmarshalJSON's postcondition DShape"] = true
+	}
 }
